@@ -204,7 +204,7 @@ def effects_unit(h):
                 h.ensures(f"no_ambient_input[{tag}]", False, why=f"{p.detail} read at call time")
             elif p.kind == "set_ctor":
                 ok, why = set_use_is_order_free(fi, p.site)
-                h.ensures(f"set_order_not_observable[{tag}]", ok, why=why)
+                h.ensures(f"set_order_not_observable[{tag}]", ok, why=why, replay=lambda ev: {"target": "verif_replays:hash_seed_replay", "args": [], "check": "result['exc'] is None and result['ok']"})
     h.ensures("effect_inventory_not_empty", n_sites >= 5, why=f"{n_sites} effect sites reachable")
     # the bootstrap generator restarts from the seed on every run: self.rng is created in __init__ only, and
     # get_estimates creates a fresh model object on every call
